@@ -10,11 +10,12 @@ pub mod c01;
 pub mod c02;
 pub mod c03;
 pub mod c04;
+pub mod c11;
 pub mod c12;
 pub mod c14;
 
 pub fn all() -> Vec<Box<dyn Scenario>> {
-    vec![Box::new(c01::C01), Box::new(c02::C02), Box::new(c03::C03), Box::new(c04::C04), Box::new(c12::C12), Box::new(c14::C14)]
+    vec![Box::new(c01::C01), Box::new(c02::C02), Box::new(c03::C03), Box::new(c04::C04), Box::new(c11::C11), Box::new(c12::C12), Box::new(c14::C14)]
 }
 
 pub fn by_id(id: &str) -> Option<Box<dyn Scenario>> {
